@@ -19,7 +19,7 @@ from ..refs import matrices as mx
 ID = "C10"
 TECHNIQUE = "bounded-exhaustive grid enumeration of symmetric PSD inputs (size x spectrum x basis x scale x root x epsilon x dtype x solver) on the real matrix_inverse_root against a float64 / closed-form spectral oracle with the error bound of the statement"
 RULE = (
-    "n in {1,2,3,4,5,8,16[,32,64,128 thorough]} x spectra {equal, geometric(cond 10^k), one_tiny, clustered, rankdef, linear} x bases {identity, perm, householder, givens, dct} x scale {1e-6,1,1e6} x "
+    "n in {1,2,3,4,5,8,16[,6,7,12,24,32,48,64,100,128 thorough]} x spectra {equal, geometric(cond 10^k), one_tiny, clustered, rankdef, linear} x bases {identity, perm, householder, givens, dct} x scale {1e-6,1,1e6} x "
     "roots {1,2,4,8,3,6,3/2,4/3,8/3[,5,7 for n <= 3]} x eps {1e-2,1e-6,1e-12}*scale x dtype {f32,f64} x solver {eigen, eigen+stability, eigen with a config carrying exponent_multiplier, higher-order with rel_epsilon 1e-2 (spectral two-sided bound), newton(1e-6), newton(1e-10), higher-order(2), higher-order(3)}; "
     "complete product for n <= 8 (<= 5 quick), larger n with reduced axes. state = the input tuple; non-trivial = condition number > 10"
 )
@@ -77,8 +77,8 @@ def spectra_for(dtype):
 
 
 def cases(tier):
-    nfull = [1, 2, 3, 4, 5] if tier == "quick" else [1, 2, 3, 4, 5, 8]
-    nbig = [8, 16] if tier == "quick" else [16, 32, 64, 128]
+    nfull = [1, 2, 3, 4, 5] if tier == "quick" else [1, 2, 3, 4, 5, 6, 7, 8]
+    nbig = [8, 16] if tier == "quick" else [12, 16, 24, 32, 48, 64, 100, 128]
     for dtype in ("f32", "f64"):
         for n in nfull:
             for (sp, cond), b, scale, eps_rel in itertools.product(spectra_for(dtype), mx.BASES, [1e-6, 1.0, 1e6], EPS_REL[dtype]):
